@@ -391,6 +391,18 @@ func (g *G) astate(s *ASpec) *AState {
 			st.Bs[g.pick(bindKeys)] = []interface{}{map[string]interface{}{"q": g.num()}, g.scalar()}
 		}
 		g.bindThresholds(s, st)
+		if nd := s.Nodes[st.Node]; nd != nil && nd.Action != nil {
+			// a binding the node's action reaches into usually holds something to reach into
+			for _, op := range nd.Action.P.Ops {
+				if op.Kind == "poke" && g.chance(0.6) {
+					if g.chance(0.5) {
+						st.Bs[op.K] = map[string]interface{}{"q": g.num(), "r": []interface{}{g.scalar()}}
+					} else {
+						st.Bs[op.K] = []interface{}{map[string]interface{}{"q": g.num()}, g.scalar()}
+					}
+				}
+			}
+		}
 		if g.mode == "c18" {
 			for n := 1 + g.intn(2); n > 0; n-- {
 				if g.chance(0.4) {
